@@ -152,7 +152,7 @@ func RunProperty(p *Property, o Options) int {
 			// executions; for subprocess-isolated harnesses the first 12 per harness)
 			stable := true
 			confirmN := 4
-			if h.Isolated && (vi >= 12 || v.Confirmed) {
+			if h.NoConfirm || (h.Isolated && (vi >= 12 || v.Confirmed)) {
 				confirmN = 0
 			}
 			for i := 0; i < confirmN && stable; i++ {
